@@ -365,3 +365,11 @@ def dump_custom_format(p, dumper, parser, fmt):
     q = parser.parse(s)
     assert q == p
     assert valid_date(q) and time_normal24(q)
+
+
+def rec_text_round_trip(r, rparser):
+    # C14: the REAL str(recurrence) and the REAL TimeRecurrenceParser.parse composed
+    s = str(r)
+    q = rparser.parse(s)
+    assert q == r          # equal hashes follow by the lemma rec_equal_implies_equal_hash
+    assert str(q) == s
